@@ -216,6 +216,24 @@ func (c05) checkTree(ctx *core.Ctx, t *qt.Node, r interface{ Intn(int) int }, ex
 			c05Compare(ctx, s.name, text, t)
 		})
 	}
+	// AND written as juxtaposition wherever the grammar allows it (C07 decides that the two
+	// spellings agree; here the juxtaposed text is held against the tree itself, so a parser that
+	// gives the unwritten AND another precedence than the table's shows under this property too)
+	tc := t.Clone()
+	nj := 0
+	for _, a := range qt.AndNodes(tc) {
+		if !a.Implicit && qt.JuxEligible(a, qt.Style{}) {
+			a.Implicit = true
+			nj++
+		}
+	}
+	if nj > 0 {
+		text := qt.Print(tc, qt.Style{})
+		ctx.Count("juxtaposed_texts", 1)
+		ctx.Case(text, func() {
+			c05Compare(ctx, "juxtaposed", text, t)
+		})
+	}
 	if d == 2 && ctx.Index()%50 == 0 {
 		ctx.Sample("depth2", t.String())
 	}
@@ -231,7 +249,7 @@ func minInt(a, b int) int {
 func (c05) Finish(res *core.Result, cov map[string]any) []string {
 	reasons := []string{}
 	cov["distinct_nontrivial"] = res.NDistinct("nontrivial")
-	cov["rule"] = "every tree of depth <= 2 over the leaf alphabet (exhaustive) plus seeded random trees of depth <= 6, each printed in 6 styles (minimal / full parentheses / no optional space / mixed whitespace+keyword case / 2 redundant-parenthesis placements) and parsed; Parse(text) must be DeepEqual to the tree built with the expr constructors. Non-trivial = distinct tree of depth >= 2."
+	cov["rule"] = "every tree of depth <= 2 over the leaf alphabet (exhaustive) plus seeded random trees of depth <= 6, each printed in 7 styles (minimal / full parentheses / no optional space / mixed whitespace+keyword case / 2 redundant-parenthesis placements / every AND that may be juxtaposed written as juxtaposition) and parsed; Parse(text) must be DeepEqual to the tree built with the expr constructors. Non-trivial = distinct tree of depth >= 2."
 	cov["exhaustive"] = true
 	cov["op_pairs_seen"] = res.NDistinct("op_pairs")
 	floor(res.NDistinct("op_pairs") >= 63, &reasons, "operator (parent,child,side) pairs seen %d < 63", res.NDistinct("op_pairs"))
